@@ -301,7 +301,12 @@ func (c *fsCache) initialize(appname string) error {
 	}
 	c.fn = fragmentingFileNamer()
 	c.fnk = fragmentingFileNameKeyer()
-	c.dw = dirWalkerFunc(filepath.WalkDir)
+	// Walk relative to the root handle: every step opens a single path component, so
+	// keys whose fragmented path is longer than PATH_MAX can be listed as well (they
+	// can be stored, because os.Root resolves paths the same way).
+	c.dw = dirWalkerFunc(func(_ string, fn fs.WalkDirFunc) error {
+		return fs.WalkDir(c.root.FS(), ".", fn)
+	})
 	c.timeout = cmp.Or(c.timeout, defaultTimeout)
 
 	return nil
@@ -495,7 +500,7 @@ func (c *fsCache) keys(prefix string) ([]string, error) {
 			return nil
 		}
 		key, err := c.fnk.KeyFromFileName(
-			strings.TrimPrefix(path, dirname+string(os.PathSeparator)),
+			filepath.FromSlash(strings.TrimPrefix(path, dirname+string(os.PathSeparator))),
 		)
 		if err != nil {
 			return err
